@@ -18,7 +18,7 @@ use std::time::Duration;
 
 pub struct C13;
 
-pub const FILE_CLASSES: [&str; 13] = [
+pub const FILE_CLASSES: [&str; 15] = [
     "none",
     "missing",
     "directory",
@@ -32,6 +32,8 @@ pub const FILE_CLASSES: [&str; 13] = [
     "noise_bytes",
     "deep_area",
     "non_utf8_name",
+    "bom_prefixed",
+    "crlf_lines",
 ];
 pub const STDIN_CLASSES: [&str; 5] = ["flip", "cut", "insert_ff", "bytes", "empty"];
 
@@ -150,6 +152,21 @@ pub fn file_variant(sc: &Scenario, class: &str) -> FileVariant {
             let b: Vec<u8> = (0..n).map(|i| mix(key ^ 7 ^ (i as u64) << 8) as u8).collect();
             v.unreadable = std::str::from_utf8(&b).is_err();
             v.content = Some(b);
+        }
+        "bom_prefixed" => {
+            // what many editors write: a byte-order mark in front of a valid program
+            let mut b = "\u{FEFF}".as_bytes().to_vec();
+            b.extend_from_slice(&src);
+            v.content = Some(b);
+        }
+        "crlf_lines" => {
+            // one command per line with CR LF line ends
+            let mut t = String::new();
+            for c in &sc.cmds {
+                c.source(&mut t);
+                t.push_str("\r\n");
+            }
+            v.content = Some(t.into_bytes());
         }
         "non_utf8_name" => {
             v.name = "p\u{FFFD}.hyeong".into();
@@ -363,6 +380,7 @@ impl C13 {
             "bitflip" | "cut_inside_char" | "lone_continuation" => out.add("F7_file_not_utf8", 1),
             "noise_utf8" | "noise_bytes" => out.add("F7_file_noise", 1),
             "non_utf8_name" => out.add("F7_file_name_not_utf8", 1),
+            "bom_prefixed" | "crlf_lines" => out.add("F7_file_bom_or_crlf", 1),
             _ => out.add("F7_file_deep_area_chain", 1),
         }
         if sclass != "none" {
@@ -598,6 +616,21 @@ impl Property for C13 {
                 sc.level = level;
                 if fi % 2 == 1 {
                     sc.stdin = stdin_variant(&base, STDIN_CLASSES[(i as usize + fi) % 5]);
+                } else if i % 4 == 1 && *fclass == "none" {
+                    // a long line of multi-byte characters (the real stdin path has its own buffering)
+                    let n = 700 + (mix(base.plan.key ^ 0x10E6) % 3000) as usize;
+                    let mut t = String::new();
+                    for k in 0..n {
+                        t.push(char::from_u32(0xAC00 + (mix(base.plan.key ^ (k as u64) << 3) % 11172) as u32).unwrap_or('가'));
+                    }
+                    t.push('\n');
+                    t.push_str(&String::from_utf8_lossy(&base.stdin));
+                    sc.stdin = t.into_bytes();
+                    // make sure the line is read
+                    sc.cmds.insert(0, Cmd::new(5, 1, 0, RArea::Nil));
+                    sc.cmds.insert(1, Cmd::new(1, 2, 1, RArea::Nil));
+                    sc.cmds.insert(2, Cmd::new(5, 1, 3, RArea::Nil));
+                    sc.file_bytes = None;
                 }
                 let (c, v) = self.real_case(&sc);
                 spawned += c;
